@@ -128,9 +128,12 @@ def perturb(prog, cut, rng, kind=None):
                 if name == "px" or name == "bidoffer":
                     new = None if (mode < 0.15 and name == "px" and False) else (old if old is None else max(1, int(old) + rng.choice([-5, -2, 3, 7, 11])) if name == "px" else rng.choice([0, 2, 4]))
                 elif old is None:
-                    new = rng.choice([None, 0.25, 1])
+                    new = rng.choice([None, 0.25, 1]) if name not in ("coupons", "cost_long", "cost_short", "notional") else None
                 elif isinstance(old, bool):
                     new = not old if mode < 0.5 else old
+                elif name in ("coupons", "cost_long", "cost_short", "notional"):
+                    # (a missing coupon / cost / notional on an open position is ill-formed input: C10's business)
+                    new = rng.choice([old * 0.5, old * 2, old * 1.5, old + 1, 0.25, 0])
                 else:
                     new = rng.choice([old * 0.5, old * 2, -old, old * 1.5, 100, -100, 0.01, None])
                 if new != old:
